@@ -215,6 +215,7 @@ func (d *Pegnetd) NullifyMintedTokens(ctx context.Context, tx *sql.Tx, height ui
 		fLog.WithFields(log.Fields{
 			"err": err,
 		}).Info("zeroing burn | balances retrieval failed")
+		return err
 	}
 
 	for _, tokenSupply := range MintTotalSupplyMap {
